@@ -22,7 +22,7 @@ TOL = 1e-10
 def states(tier, seed):
     fam = seed % 3
     st = []
-    nxs = [2, 3] if tier == "quick" else [2, 3, 4]
+    nxs = [2, 3, 4] if tier == "quick" else [2, 3, 4, 5]  # interior mesh rows exist from nx = 4 on
     sides = [("left", 2), ("left", 3), ("full", 5), ("right", 3)] + ([("full", 3), ("full", 7), ("left", 5)] if tier == "thorough" else [])
     # "wingbox+key": a wingbox surface whose dictionary also carries the documented (tube) key fem_origin - the wingbox
     # model derives the elastic axis from the section data everywhere, the key must not move the moment reference alone
